@@ -437,6 +437,17 @@ func (r *Report) Undecided(rule, key, pos, detail string) {
 	r.add(rule, key, pos, Undecided, detail, true, nil)
 }
 
+// MissingAnchor records that a named entity a rule is anchored on no longer
+// resolves. On /repo this fails the check (a rule that silently skips what it
+// cannot find passes vacuously); control packages only define the entities
+// their rule needs, so it is ignored there.
+func (r *Report) MissingAnchor(rule, name, what string) {
+	if r.curCfg == "control" {
+		return
+	}
+	r.add(rule, "anchor:"+name, "-", Undecided, what, true, nil)
+}
+
 // Floor records an instance floor; a rule that matches fewer instances than
 // were confirmed by hand fails the check (a rule matching nothing passes
 // vacuously forever).
